@@ -18,19 +18,57 @@ def search(c, cfg, missing):
 
 PROP = dict(
     module="M3d.Props.C01",
-    gen=["McTable"],
+    gen=["McTable", "C01Margin"],
+    tie_modules=["M3d.Lemmas.C01MarginTie"],
     corr=dict(quick=150, thorough=1500),
     search=search,
-    corr_theorems="M3d.C01.mc_* / ms_* (tables, kernel-decided) and bitmap_in_out_one; whole-lattice meshes are assembled from the regenerated table by M3d.Marching.mcMesh/msMesh/bitmapMesh and judged by executable deciders",
-    rule="(a) exhaustive: all 256 (16) single-cell configurations as 2x2x2 (2x2) lattice solids through the real MarchingCubes/MarchingSquares; (b) random lattice labellings up to 4x4x4 / 6x6 (uniform, sparse, dense, noisy checkerboards = ambiguous configurations) through MarchingCubes, MarchingCubesFilter, MarchingSquares(+Filter), Bitmap.Mesh: real triangle/segment lists must equal the model's lists and the deciders must accept; (c) real outputs of every other generator named by the property (rect, icosahedron, icosphere, polar, cylinder, cone, torus, profile, polytope, rect-set, height-map, search-refined MC/MS) as id soups with exact float coordinates through the deciders + exact signed volume",
+    corr_theorems=(
+        "mc/ms/bitmap kinds: M3d.C01.mc_* / ms_* (tables, kernel-decided), ms_closed_on_every_lattice, mc_edges_balanced_on_every_lattice, mc_fans_one_cycle_on_every_lattice, bitmap_in_out_one and bitmap_closed_on_every_bitmap; "
+        "whole-lattice meshes are assembled from the regenerated table by M3d.Marching.mcMesh/msMesh/bitmapMesh; "
+        "msc2f/mcc2f kinds (coarse-to-fine): the driver evaluates the documented cover M3d.C2F.seenAll2/3 m (m+E) on the two labellings and answers with the plain fine mesh: "
+        "c2f_ms_closed_under_documented_cover / c2f_mc_edges_balanced_under_documented_cover / c2f_mc_fans_one_cycle_under_documented_cover (via M3d.C12.c2f_ms_sound / c2f_mc_sound) together with the tie module "
+        "M3d.Lemmas.C01MarginTie (ms/mc_total_ge_extra_plus_two_coarse, c2f_ms_closed_code_margin, c2f_mc_balanced_code_margin: the expansion REGENERATED from the source is at least "
+        "E*smallDelta + 2*bigDelta); same msc2f-direct / mcc2f-direct: the same theorems (C2F face multiset = plain fine one); "
+        "soup2/soup3/rectset verdicts balanced= fans= inout=: soup_closed_manifold_decided, soup_in_out_one_decided (the sort/bucket deciders decide exactly Surface.ClosedManifold / InOutOne); "
+        "rectset verdicts tri= wind= vol=: exact evaluation of M3d.RectSpec on the real triangles against the boxes as a point set (per instance, no theorem for all inputs)"
+    ),
+    rule=(
+        "(a) exhaustive: all 256 (16) single-cell configurations as 2x2x2 (2x2) lattice solids through the real MarchingCubes/MarchingSquares; "
+        "(b) random lattice labellings up to 4x4x4 / 6x6 (uniform, sparse, dense, noisy checkerboards = ambiguous configurations) and blobs up to 8^3 / 26^2 through MarchingCubes, MarchingCubesFilter, "
+        "MarchingSquares(+Filter), Bitmap.Mesh: real triangle/segment lists must equal the model's lists and the deciders must accept; "
+        "(c) real outputs of every other generator named by the property (rect, icosahedron, icosphere, polar, cylinder, cone, torus, profile, polytope, height-map, search-refined MC/MS) as id soups "
+        "with exact float coordinates through the deciders + exact signed volume; "
+        "(d) box sets (kind rectset): RectSet.Mesh() on dyadic boxes - blocks with extents 2^-3..200 and beads / crumbs / plates of thickness 2^-4..2^-26 touching along edges or at vertices, placed in the "
+        "FIRST and the LAST grid interval of each axis, diagonal chains, integer stairs, the 2^-13 bead on the 100x1x100 block in all four first/last combinations: judged against the boxes as a point set "
+        "(closed manifold, per-triangle outward probe, winding number at three generic samples of every grid cell, exact volume); "
+        "(e) coarse-to-fine (kinds msc2f/mcc2f): MarchingSquaresC2F/MarchingCubesC2F at spacing ratios 2,4,8,16,32 on rects, CSG of boxes with notches, convex polygons/polytopes with small-integer "
+        "normals, boxes with a thin spike/rod strictly between two coarse lattice lines; tight or padded bounds (random phase against both lattices); extraSpace = the least number of fine steps for which "
+        "the documented cover holds (0 for solids the coarse pass sees; > 0 for spikes/rods) plus {0,0,0,1,3}; iters in {0,4,8}; the real mesh is compared with the plain fine model mesh (lattice-edge-snapped "
+        "multiset hash), sent through the soup deciders with exact float ids, and compared face-for-face with the direct Marching...Search mesh. distinct = distinct op lines"
+    ),
     trusted=[
         "regenerated, not modelled: the 256-row and 16-row lookup tables (dumped by executing mcLookupTable()/msLookupTable() of the current tree through the verif hook; the dump is repeated 20x and must be identical)",
-        "MECHANISED lifts (all lattice sizes, all labellings with empty outer layer): ms_closed_on_every_lattice (2-D: one incoming and one outgoing segment at every vertex) and mc_edges_balanced_on_every_lattice (3-D: every directed edge occurs at most once and its reverse exactly as often), both from kernel-decided local facts (msLocalOk / mcLocalOk) about the regenerated tables",
-        "NOT mechanised: in 3-D that no vertex pinches two sheets (the four fan paths round a lattice edge chain into one cycle) and outward orientation of the assembled surface follow from the kernel-decided per-cell theorem mc_fan_is_outward_path by the written argument in DESIGN.md §3 C01 / notes/C01.md; the bitmap lift (a pixel only puts vertices at its own corners and reads its 3x3 neighbourhood) likewise; both are exercised by the whole-lattice correspondence",
-        "parametric generators (polar/cylinder/cone/torus/polytope/rect-set/height-map/profile): judged per generated instance by the executable deciders (seam/pole vertex coincidence is float equality of sin/cos results), not proved for all parameters",
-        "executable deciders edgeBalanced/fanConnected/inOutOne in lean/M3d/Drv/C01.lean are trusted code (their proved counterparts live in M3d/Model/Surface.lean once C10 lands)",
+        "regenerated, not modelled: the expansion MarchingSquaresC2F/MarchingCubesC2F apply to a fine block's bounds as a function of the caller's extraSpace and the shape of the filter closure (Gen/C01Margin.lean, go/ast); math.Sqrt is uninterpreted with sqrt(x)^2 = x and sqrt(x) >= 0",
+        "MECHANISED lifts (all lattice sizes, all labellings with empty outer layer): ms_closed_on_every_lattice (2-D: one incoming and one outgoing segment at every vertex), mc_edges_balanced_on_every_lattice (3-D: every directed edge occurs at most once and its reverse exactly as often), both from kernel-decided local facts (msLocalOk / mcLocalOk) about the regenerated tables, extended to the coarse-to-fine routines under the documented cover; and bitmap_closed_on_every_bitmap (Bitmap.Mesh: every segment end has one outgoing and one incoming segment, every image up to 15998 pixels per side - the bound is the model's 16-bit packing of quarter-pixel coordinates) from the 65 536 kernel-decided windows",
+        "coarse-to-fine: the documented contract is READ as: with E*smallDelta <= extraSpace every fine sign-change cell within E fine steps + one coarse spacing (max-norm) of a coarse sign-change cell must be meshed (seenAll2/3 m (m+E)); solids violating it are not compared (the documented limitation of C2F). Hypotheses of the c2f theorems not proved about the code: the filter keeps a block whenever a coarse-mesh vertex lies in its expanded bounds (completeness of RectCollision: C07/C08), the real coarse mesh has a vertex on every coarse sign-change cell (M3d.C12.coarse_mixed_cell_has_vertex2/3, c2f_search_stays_on_edge; checked per case by C12's *-hverts kinds), integer spacing ratios; float rounding of bounds is absorbed by the slack (2*sqrt(3)-2)*bigDelta",
+        "MECHANISED (3-D, second half): mc_fans_one_cycle_on_every_lattice - for every lattice size, labelling with empty outer layer and position V the link of V in the assembled mesh is empty or ONE simple closed cycle (no vertex pinches two sheets), from the kernel-decided mcFanLocalOk (256 rows x 12 edges: the fan is a simple path from its start face to its end face, counter-clockwise about inside->outside) and mc_edges_balanced_on_every_lattice; the orientation clause (normals from the contained to the excluded side) is the per-cell kernel-decided mc_fan_is_outward_path - a triangle's orientation is decided inside its cell",
+        "parametric generators (polar/cylinder/cone/torus/polytope/rect-set/height-map/profile): judged per generated instance by the proved deciders (seam/pole vertex coincidence is float equality of sin/cos results), not proved for all parameters; RectSet.Mesh additionally by M3d.RectSpec (soundness of its margins - samples >= gap/3 from grid planes, probes gap/4 long, pull <= 0.1*gap - is a written argument in the file header)",
     ],
-    assumptions=["solids are seen only through their value on the sampling lattice, with an empty outer layer (the scanners panic otherwise)"],
-    level_text="Kernel-decided theorems over the complete finite configuration space named by the property (256 cube / 16 square configurations, all 3x16 shared-face labellings, all 256x12 vertex fans incl. outward winding, all 65 536 4x4 pixel windows) about tables REGENERATED from /repo on every run, so an edit to baseTriangleTable, the rotation machinery, the first-rotation-wins rule or the inverse-row generation re-runs every theorem; plus exact correspondence of whole-lattice meshes with the real marching cubes/squares/bitmap code and decider verdicts on real outputs of all other mesh generators.",
-    level_note="Local theorems are machine-checked; the local-to-global lift is mechanised for marching squares (in/out degree) and for marching-cubes edge balance; 3-D fan connectivity/orientation and the bitmap lift are written counting arguments backed by whole-lattice correspondence. Parametric generators are covered per instance. Trusted: Lean kernel, table dump hook, harness/driver.",
+    assumptions=[
+        "solids are seen only through their value on the sampling lattice, with an empty outer layer (the scanners panic otherwise)",
+        "coarse-to-fine: the documented cover holds for the caller's extraSpace (evaluated by the driver on every case)",
+    ],
+    level_text=(
+        "Kernel-decided theorems over the complete finite configuration space named by the property (256 cube / 16 square configurations, all 3x16 shared-face labellings, all 256x12 vertex fans incl. "
+        "outward winding, all 65 536 4x4 pixel windows) about tables REGENERATED from /repo on every run, so an edit to baseTriangleTable, the rotation machinery, the first-rotation-wins rule or the "
+        "inverse-row generation re-runs every theorem; mechanised local-to-global lifts for marching squares (in/out degree one), bitmap outlining (in/out degree one) and marching cubes (edge balance AND one cycle per vertex fan) on every lattice, edge balance carried over to "
+        "MarchingSquaresC2F/MarchingCubesC2F for every spacing ratio, solid and extraSpace under the documented cover, with the margin as written in the source (regenerated) proved sufficient; proved "
+        "manifold deciders for real outputs; plus exact correspondence of whole-lattice meshes with the real marching cubes/squares/bitmap/coarse-to-fine code and verdicts on real outputs of all other "
+        "mesh generators (box sets also against the union of the boxes as a point set: orientation per triangle, winding numbers, volume)."
+    ),
+    level_note=(
+        "Local theorems are machine-checked; the local-to-global lifts are mechanised for marching squares (in/out degree), bitmap outlining, and marching cubes (edge balance and fan connectivity; the C2F variants "
+        "up to the explicit hypotheses on RectCollision / the coarse mesh listed under trusted). Parametric generators and RectSet.Mesh are covered per instance by proved deciders. Trusted: Lean kernel, "
+        "table dump hook, go/ast margin extractor, harness/driver."
+    ),
 )
